@@ -360,3 +360,81 @@ WITH_COMPONENTS = Contract(
          'the loop over the entries repeats this step')
 WITH_COMPONENTS.bounded = 'one (field, constraint) entry per constraint (the loop over entries is unrolled)'
 CONTRACTS.append(WITH_COMPONENTS)
+
+
+# ---- ... for any number of (field, constraint) entries ------------------------------------------------------------------------
+WC_STORED = z3.Function('member.stored', _I, z3.BoolSort())          # by field token: a slot holds something
+WC_ISVAL = z3.Function('member.isValue', _I, z3.BoolSort())          # ... which is a value (not a read's placeholder)
+WC_PRESENCE = z3.Function('constraint.isPresenceOrSet', _I, z3.BoolSort())   # by constraint token: PRESENT / ABSENT / a set
+WC_ADMITS = z3.Function('constraint.admitsMember', _I, z3.BoolSort())        # what the constraint says of what it is shown
+
+
+class _Entries(_RecSeqV):
+    """self._values: (field, constraint) pairs, known by tokens"""
+
+    def elem(self, i):
+        fid, cid = self.cols[0][i], self.cols[1][i]
+        field = Obj('str', {'__id__': fid}, name='field')
+
+        def call(ex, self_, v, idx=None):
+            # shown what it should be shown: None for an absent member (also a placeholder), the member otherwise
+            shown_ok = (v is None) if getattr(ex, '_wc_member_absent', None) else (v is not None)
+            ex.vc('%s#entry-shown-the-right-thing' % ex.c.id, z3.BoolVal(bool(shown_ok)), kind='external')
+            if not ex.choose(WC_ADMITS(cid), 'admits'):
+                raise _Raise(ExcV('ValueConstraintError'))
+            return None
+
+        def isa(ex, self_, nm):
+            return WC_PRESENCE(cid) if nm in ('ComponentPresentConstraint', 'ComponentAbsentConstraint', 'AbstractConstraintSet') \
+                else False
+        c = Obj('AbstractConstraint', {'__id__': cid}, {'__call__': call, '__isinstance__': isa},
+                name='constraint')
+        return Tup([field, c])
+
+
+def _wcn_value(ex, env):
+    def get(ex2, self, field, default=None):
+        fid = _toint(field.fields['__id__'])
+        present = None
+        if not ex2.choose(WC_STORED(fid), 'member-stored'):
+            member, present = None, False
+        else:
+            isv = ex2.choose(WC_ISVAL(fid), 'member-is-a-value')
+            member, present = Obj('Asn1Item', {'isValue': isv}, name='member'), isv
+        # remember, for the entry being evaluated on this path, whether its member counts as absent (executor-side ghost)
+        ex2._wc_member_absent = not present
+        return member
+    return Obj('dict', {}, {'get': get}, name='value')
+
+
+def _wc_ok_upto(ex, entries, upto):
+    f, c = (entries.cols[0], entries.cols[1]) if isinstance(entries, _RecSeqV) else (entries[0].z, entries[1].z)
+    present = lambda j: z3.And(WC_STORED(f[j]), WC_ISVAL(f[j]))
+    return z3.ForAll([_q], z3.Implies(z3.And(_q >= 0, _q < _toint(upto)),
+                                      z3.Or(z3.And(z3.Not(WC_PRESENCE(c[_q])), z3.Not(present(_q))), WC_ADMITS(c[_q]))))
+
+
+WITH_COMPONENTS_N = Contract(
+    id='type.constraint::WithComponentsConstraint._testValue[any-number-of-entries]', file=F,
+    qual='WithComponentsConstraint._testValue', properties=P + ['C08'],
+    params=dict(fields=_PIntTuple(), constraints=_PIntTuple(),
+                self=PDerived(lambda ex, env: Obj('WithComponentsConstraint', {
+                    '_values': _Entries([env['fields'].z, env['constraints'].z], names=None)}, name='self')),
+                value=PDerived(_wcn_value), idx=PConst(None)),
+    globals={'ok_upto': FnV(lambda ex, seq, upto: _wc_ok_upto(ex, seq, upto), 'ok_upto'),
+             'entries': FnV(lambda ex: None, 'entries'),
+             'ComponentPresentConstraint': _ClassV('ComponentPresentConstraint'),
+             'ComponentAbsentConstraint': _ClassV('ComponentAbsentConstraint'),
+             'AbstractConstraintSet': _ClassV('AbstractConstraintSet'),
+             'error': {'ValueConstraintError': _ClassV('ValueConstraintError'), '__name__': 'error'}},
+    requires=['len(fields) == len(constraints)'],
+    loops={0: _Loop(index='k', invariant=['ok_upto(loop_seq, k)'])},
+    ensures=[('passes-only-if-every-entry-is-satisfied', 'ok_upto(self._values, len(fields))')],
+    raise_ensures={'ValueConstraintError': ['not ok_upto(self._values, len(fields))']},
+    may_raise={'ValueConstraintError': True},
+    note='an entry is satisfied when its constraint admits what it is shown, or when it is a value constraint and the member is '
+         'absent (not stored, or a placeholder): value constraints are not consulted then; presence constraints and sets are '
+         'shown None for an absent member (obligation entry-shown-the-right-thing)')
+CONTRACTS.append(WITH_COMPONENTS_N)
+for _c in CONTRACTS[-1:]:
+    pass
